@@ -106,6 +106,9 @@ class BaseOptimizationLibrary(BaseDriverLibrary):
     _x_tol_tester: DesignToleranceTester
     """A tester for the termination criterion associated to the design variables."""
 
+    __kkt_checker: _KKTChecker | None
+    """The KKT checker attached to the database during the execution, if any."""
+
     ALGORITHM_INFOS: ClassVar[dict[str, OptimizationAlgorithmDescription]] = {}
     """The description of the algorithms contained in the library."""
 
@@ -113,6 +116,17 @@ class BaseOptimizationLibrary(BaseDriverLibrary):
         super().__init__(algo_name)
         self._f_tol_tester = ObjectiveToleranceTester()
         self._x_tol_tester = DesignToleranceTester()
+        self.__kkt_checker = None
+
+    def _clear_listeners(self, problem: OptimizationProblem) -> None:
+        super()._clear_listeners(problem)
+        if self.__kkt_checker is not None:
+            # The KKT checker is a store listener: do not leave it on the database,
+            # a later execution on the same problem would be stopped by it.
+            problem.database.clear_listeners(
+                new_iter_listeners=None, store_listeners=[self.__kkt_checker]
+            )
+            self.__kkt_checker = None
 
     def _check_constraints_handling(self, problem: OptimizationProblem) -> None:
         """Check if problem and algorithm are consistent for constraints handling."""
@@ -180,16 +194,18 @@ class BaseOptimizationLibrary(BaseDriverLibrary):
             kkt_abs_tol = settings[self._KKT_TOL_ABS]
             kkt_rel_tol = settings[self._KKT_TOL_REL]
             if not isinf(kkt_abs_tol) or not isinf(kkt_rel_tol):
+                kkt_checker = _KKTChecker(
+                    problem,
+                    kkt_abs_tol,
+                    kkt_rel_tol,
+                    settings[self._INEQ_TOLERANCE],
+                )
                 problem.add_listener(
-                    _KKTChecker(
-                        problem,
-                        kkt_abs_tol,
-                        kkt_rel_tol,
-                        settings[self._INEQ_TOLERANCE],
-                    ),
+                    kkt_checker,
                     at_each_iteration=False,
                     at_each_function_call=True,
                 )
+                self.__kkt_checker = kkt_checker
 
         problem.design_space.initialize_missing_current_values()
         if problem.differentiation_method == self.DifferentiationMethod.COMPLEX_STEP:
